@@ -475,7 +475,20 @@ func comparePair(a *Node) *pairResult {
 	ra := runTree(a, nil, nil, nil, uni)
 	rb := runTree(a, idMask(outer...), nil, nil, uni)
 	pr := &pairResult{A: ra, B: rb, Dead: dead, Universe: uni}
-	pr.D = diffRuns(ra, rb, uni)
+	// A successful value-0 CALL to a precompile address that is no account yet "touches" it: an empty
+	// account object exists until the state is finalised (go-ethereum does the same). Inside a static
+	// frame that is not a modification the property is about: existence of exactly those addresses is exempt.
+	var exA *exempt
+	a.walk(func(n, _ *Node, _ int, _ bool) {
+		if n.Pre != 0 && n.Kind == kCALL && n.End == "stop" {
+			if exA == nil {
+				exA = &exempt{touchOf: map[string]bool{}}
+			}
+			pa := preAddr(n.Pre)
+			exA.touchOf[fmt.Sprintf("%x", pa[:])] = true
+		}
+	}, nil, 0, false)
+	pr.D = diffRunsEx(ra, rb, uni, exA, true)
 	if len(noEntry) > 0 {
 		pr.B0 = runTree(a, idMask(outer...), nil, idMask(noEntry...), uni)
 		pr.D0 = diffRunsEx(rb, pr.B0, uni, ex, false)
@@ -488,6 +501,7 @@ func comparePair(a *Node) *pairResult {
 // the creator's (authority's) nonce legitimately stays bumped when the frame fails.
 type exempt struct {
 	nonceOf  map[string]bool // hex addresses whose nonce lines are ignored
+	touchOf  map[string]bool // hex addresses whose bare existence (exist / empty / hash of no code) is ignored
 	accounts map[string]bool // hex addresses ignored in the set of existing accounts
 }
 
@@ -498,6 +512,9 @@ func (e *exempt) filterLines(l []string) []string {
 	var out []string
 	for _, x := range l {
 		sp := strings.IndexByte(x, ' ')
+		if sp > 0 && e.touchOf[x[:sp]] && (strings.HasPrefix(x[sp+1:], "codehash=") || strings.HasPrefix(x[sp+1:], "empty=") || strings.HasPrefix(x[sp+1:], "exist=")) {
+			continue
+		}
 		if sp > 0 && (e.accounts[x[:sp]] || (e.nonceOf[x[:sp]] && (strings.HasPrefix(x[sp+1:], "nonce=") || strings.HasPrefix(x[sp+1:], "empty=") || strings.HasPrefix(x[sp+1:], "exist=")))) {
 			continue
 		}
@@ -749,7 +766,8 @@ func judgeTree(r *mon.Run, st *twinStats, t *Node, label string) (nontrivial boo
 		if debugOn {
 			fmt.Printf("GASSKEW %s\n  expected %v\n  A %v\n  B %v\n", t.shape(true), expected, pr.A.Trace, pr.B.Trace)
 		}
-		if w, d := pr.verdict(); w != "" {
+		// (a returned-logs difference does not depend on gas: it is the listed finding about REVERTed frames)
+		if w, d := pr.verdict(); w != "" && d.Class != "returned-logs" {
 			r.Inconclusive("twin pair differs (%s %s) but a frame ran out of gas that was not planned to: %s", w, d.Class, t.shape(true))
 		}
 		return false
